@@ -107,6 +107,14 @@ class Flipper(SystemWideDevice):
 
         # Apply the proper hardware rules for our config
 
+        try:
+            self._enable_rules()
+        except Exception:
+            # a rule could not be written (e.g. coil limits): remove the rules written so far
+            self.disable()
+            raise
+
+    def _enable_rules(self):
         if self.config['activation_switch']:
             # only add rules if we are using a switch
             if self.config['use_eos']:
